@@ -5,6 +5,7 @@ package props
 import (
 	"fmt"
 	"math/big"
+	"strings"
 	"testing"
 
 	"pgregory.net/rapid"
@@ -53,13 +54,15 @@ func (m *machine) lowestCursor(s *SourceCfg) (uint64, bool) {
 
 // safeFloor per pair: rows of blocks <= floor must never be removed or rewritten.
 type c03State struct {
-	floor      map[string]uint64
-	hasFloor   map[string]bool
-	maxEver    map[string]uint64 // highest position ever recorded per source
-	orphanRows bool              // an orphaned block had produced rows
-	deep       bool              // reorg deeper than one block
-	midStep    bool
-	reorgs     int
+	floor         map[string]uint64
+	hasFloor      map[string]bool
+	maxEver       map[string]uint64 // highest position ever recorded per source
+	orphanRows    bool              // an orphaned block had produced rows
+	deep          bool              // reorg deeper than one block
+	midStep       bool
+	reorgs        int
+	touchedOthers bool
+	deletions     map[string]bool
 }
 
 func (m *machine) doReorg(st *c03State, s *SourceCfg, fork uint64, contents [][]sim.Tx, mid bool) {
@@ -112,25 +115,30 @@ func (m *machine) doReorg(st *c03State, s *SourceCfg, fork uint64, contents [][]
 	m.logf("reorg %s fork=%d oldhead=%d newlen=%d mid=%v -> head %d", s.Name, fork, oldHead, newLen, mid, c.Head().Num)
 }
 
-func c03Property(rt *rapid.T, ev *evid.Rec, o machineOpts) {
+func c03Property(rt *rapid.T, ev *evid.Rec, o machineOpts) { reorgProperty(rt, ev, o, "C03") }
+
+// reorgProperty is shared by C03 (convergence after reorgs) and C04 (the same
+// histories over configurations that share tables, sources and caches, plus the
+// frame condition on every commit).
+func reorgProperty(rt *rapid.T, ev *evid.Rec, o machineOpts, prop string) {
 	o.NeedParent = true
 	o.Starts = []string{"one", "mid", "zero"}
 	m := newMachine(rt, o)
 	defer m.Close()
 	w := m.w
-	st := &c03State{floor: map[string]uint64{}, hasFloor: map[string]bool{}, maxEver: map[string]uint64{}}
+	st := &c03State{floor: map[string]uint64{}, hasFloor: map[string]bool{}, maxEver: map[string]uint64{}, deletions: map[string]bool{}}
 	fail := func(f string, a ...any) {
-		rt.Fatalf("VERIF-VIOLATION property=C03 %s\n history:\n   %s", fmt.Sprintf(f, a...), m.History())
+		rt.Fatalf("VERIF-VIOLATION property=%s %s\n history:\n   %s", prop, fmt.Sprintf(f, a...), m.History())
 	}
 	type pend struct {
-		kind    string // request kind that triggers it ("" = k-th request)
-		k       int
-		depth   int
-		newLen  int
-		txs     [][]sim.Tx
-		nth     int // fire on the nth matching request
-		seen    int
-		fired   bool
+		kind   string // request kind that triggers it ("" = k-th request)
+		k      int
+		depth  int
+		newLen int
+		txs    [][]sim.Tx
+		nth    int // fire on the nth matching request
+		seen   int
+		fired  bool
 	}
 	var pending *pend
 	w.SetHook(func(s *SourceCfg, n *sim.Node, ri sim.ReqInfo) *sim.Fault {
@@ -168,6 +176,21 @@ func c03Property(rt *rapid.T, ev *evid.Rec, o machineOpts) {
 		}
 		if r.After.OK && r.After.Num > st.maxEver[p.Src.Name] {
 			st.maxEver[p.Src.Name] = r.After.Num
+		}
+		// frame condition: a step changes only rows and positions stamped with its own pair
+		own := ":" + p.Src.Name + "/" + p.Decl.Name
+		for k := range touched(r.Commits) {
+			if !strings.HasSuffix(k, own) {
+				fail("a step of %s changed rows stamped %s", p.Key(), k)
+			}
+			st.touchedOthers = true
+		}
+		if len(r.Commits) > 0 {
+			for _, c := range r.Commits {
+				if len(c.Removed) > 0 {
+					st.deletions[p.Key()] = true
+				}
+			}
 		}
 		if !st.hasFloor[p.Key()] {
 			return
@@ -304,10 +327,16 @@ func c03Property(rt *rapid.T, ev *evid.Rec, o machineOpts) {
 		m.logf("not canonical yet (%s): the chain grows by one block", v)
 		m.label("healed-by-growth")
 		for _, s := range w.Sources {
-			m.grow(s, 1)
+			// past every height a task recorded meanwhile (stale cached heads can be several blocks up)
+			m.grow(s, max(1, int(st.maxEver[s.Name])+1-int(s.Node.Chain.Head().Num)))
 		}
 	}
 	nontrivial := st.orphanRows && (st.deep || st.midStep)
+	if prop == "C04" {
+		// >= 2 pairs share a table or a client AND one of them deleted rows (reorg) or was restarted while another had rows
+		shared := m.labels["shared-table"] || len(w.Pairs) > 1
+		nontrivial = shared && len(w.Pairs) > 1 && (len(st.deletions) > 0 || m.labels["restart"])
+	}
 	labels := []string{fmt.Sprintf("reorgs=%d", min(st.reorgs, 4)), fmt.Sprintf("orphanRows=%v", st.orphanRows), fmt.Sprintf("deep=%v", st.deep), fmt.Sprintf("midStep=%v", st.midStep)}
 	for l := range m.labels {
 		labels = append(labels, l)
